@@ -57,6 +57,10 @@ P = {'id': 'C07',
              'allocate_medium and deallocate_medium as two separate searches, allocate_large / allocate_huge) over src/memory/pool.rs (MemoryPool as a bounded '
              'FIFO queue), MemoryPool also on its own; src/memory/secure_pool.rs chunk bookkeeping (allocate_with_hint, deallocate_internal, LocalCache, the '
              'shared stack sequentially, generations, active_allocations); src/memory/mmap.rs (min size, page rounding, region cache keyed by the rounded size)',
+             'oracle only (no mechanism model): the secondary entry points mixed into the histories of every pool - bulk requests, housekeeping (clear / '
+             'clear_caches / clear_cache / reset / validate / statistics / capacity accessors), RAII guard views, cloneable handles, typed and slice '
+             'allocation, non-preset configuration fields - and the deterministic threshold families; read-only ones are left out of the Coq history, '
+             'state-changing ones keep the case out of the model comparison; CacheAlignedVec (Vec shadow) and the global secure pools are spec-only cells',
              'spec-only cells (direct oracle with shadow map of live ranges and per-block patterns, no mechanism model): PooledBuffer / PooledVec, the global '
              'tiered_allocate entry points, numa_alloc_aligned, HugePageAllocator; five-level family: offsets only - the memory behind a MemOffset is not '
              'reachable through the public API, so contents are not checked there',
